@@ -323,7 +323,7 @@ pub fn run(ctx: &Ctx) {
         let hx = |k: &str| hex::decode(r[k].as_str().unwrap_or("")).unwrap_or_default();
         let bi = bs.iter().position(|b| b.name == r["backend"].as_str().unwrap_or("")).expect("backend");
         let purpose = if r["purpose"] == "local" { "local" } else { "public" };
-        let f = Fault { kind: "replay", detail: r["detail"].as_str().unwrap_or("").into(), backend: bi, purpose, key: hx("key"), payload: hx("payload"), footer: hx("footer"), aad: hx("aad"), text: r["text"].as_str().map(|s| s.to_string()) };
+        let f = Fault { kind: "replay", detail: r["detail"].as_str().unwrap_or("").into(), backend: bi, purpose, key: hx("key"), payload: hx("payload"), footer: hx("footer"), aad: hx("aad"), text: r["text"].as_str().or(r["token"].as_str()).map(|s| s.to_string()) };
         let orig = Tok { purpose, key: vec![], payload: vec![], footer: vec![0xfe, 0xfe, 0xfe], aad: vec![], m: vec![] };
         run_fault(&bs, &orig, &f, &mut m, &mut rep, true);
         rep.model_prim_calls = m.prim_calls();
